@@ -433,7 +433,9 @@ class Project:
             return False
 
     def all_functions(self) -> List[FuncInfo]:
-        return [f for m in self.modules.values() for f in m.all_funcs]
+        """every function of the project except new helpers that were completely spliced back into their callers (N11): those are judged where their code now stands"""
+        gone = getattr(self, "inlined_keys", None) or ()
+        return [f for m in self.modules.values() for f in m.all_funcs if f.key not in gone]
 
     def all_classes(self) -> List[ClassInfo]:
         return [c for m in self.modules.values() for c in m.classes.values()]
